@@ -261,19 +261,139 @@ structure Cur where
   hi : Nat
   deriving Repr
 
-/-- `next` / `next_back` of `Drain` and `IntoIter`: read the slot, hand the value out -/
-def iterSteps : List IStep → Cur → St → Cur × St
-  | [], c, s => (c, s)
-  | .front :: r, c, s =>
+/-- `next` (drain.rs:73, inline.rs:1312): read the slot, the caller gets the value -/
+def frontStep (c : Cur) (s : St) : Cur × St :=
+  if c.lo < c.hi then
+    let (a, s) := s.onMem (Mem.readMove (s.v.get c.lo))
+    ({ c with lo := c.lo + 1 }, s.withMem (Mem.retId a))
+  else (c, s)
+
+/-- `next_back` (drain.rs:94, inline.rs:1349) -/
+def backStep (c : Cur) (s : St) : Cur × St :=
+  if c.lo < c.hi then
+    let (a, s) := s.onMem (Mem.readMove (s.v.get (c.hi - 1)))
+    ({ c with hi := c.hi - 1 }, s.withMem (Mem.retId a))
+  else (c, s)
+
+/-- std's default `advance_by(k)`: `k` times `next()`, each item dropped at once (a user `Drop`
+that may panic; the cursor has already moved) -/
+def skipFront : Nat → Cur → St → Bool × Cur × St
+  | 0, c, s => (false, c, s)
+  | k + 1, c, s =>
     if c.lo < c.hi then
       let (a, s) := s.onMem (Mem.readMove (s.v.get c.lo))
-      iterSteps r { c with lo := c.lo + 1 } (s.withMem (Mem.retId a))
-    else iterSteps r c s
-  | .back :: r, c, s =>
+      let c := { c with lo := c.lo + 1 }
+      let (p, s) := s.onMem (Mem.dropId a)
+      if p then (true, c, s) else skipFront k c s
+    else (false, c, s)
+
+/-- std's default `advance_back_by(k)` -/
+def skipBack : Nat → Cur → St → Bool × Cur × St
+  | 0, c, s => (false, c, s)
+  | k + 1, c, s =>
     if c.lo < c.hi then
       let (a, s) := s.onMem (Mem.readMove (s.v.get (c.hi - 1)))
-      iterSteps r { c with hi := c.hi - 1 } (s.withMem (Mem.retId a))
-    else iterSteps r c s
+      let c := { c with hi := c.hi - 1 }
+      let (p, s) := s.onMem (Mem.dropId a)
+      if p then (true, c, s) else skipBack k c s
+    else (false, c, s)
+
+/-- a script of pulls; `true` = a destructor of a skipped item panicked (the script stops) -/
+def iterSteps : List IStep → Cur → St → Bool × Cur × St
+  | [], c, s => (false, c, s)
+  | .front :: r, c, s =>
+    let (c, s) := frontStep c s
+    iterSteps r c s
+  | .back :: r, c, s =>
+    let (c, s) := backStep c s
+    iterSteps r c s
+  | .nth k :: r, c, s =>
+    match skipFront k c s with
+    | (true, c, s) => (true, c, s)
+    | (false, c, s) =>
+      let (c, s) := frontStep c s
+      iterSteps r c s
+  | .nthBack k :: r, c, s =>
+    match skipBack k c s with
+    | (true, c, s) => (true, c, s)
+    | (false, c, s) =>
+      let (c, s) := backStep c s
+      iterSteps r c s
+
+/-- `fold` / `for_each` (std default: `while let Some(x) = self.next() { acc = f(acc, x) }`) with
+a user closure that takes the item: a user call that may panic — the item, already moved out, is
+then dropped by the unwinding — and otherwise keeps the item (handed to the caller). `n` = fuel
+(`hi - lo`). -/
+def foldFront : Nat → Cur → St → Bool × Cur × St
+  | 0, c, s => (false, c, s)
+  | n + 1, c, s =>
+    if c.lo < c.hi then
+      let (a, s) := s.onMem (Mem.readMove (s.v.get c.lo))
+      let c := { c with lo := c.lo + 1 }
+      let (p, s) := s.onMem Mem.tick
+      if p then
+        let (_, s) := s.onMem (Mem.dropId a)
+        (true, c, s)
+      else foldFront n c (s.withMem (Mem.retId a))
+    else (false, c, s)
+
+/-- `rfold` (std default over `next_back`) with the same closure -/
+def foldBack : Nat → Cur → St → Bool × Cur × St
+  | 0, c, s => (false, c, s)
+  | n + 1, c, s =>
+    if c.lo < c.hi then
+      let (a, s) := s.onMem (Mem.readMove (s.v.get (c.hi - 1)))
+      let c := { c with hi := c.hi - 1 }
+      let (p, s) := s.onMem Mem.tick
+      if p then
+        let (_, s) := s.onMem (Mem.dropId a)
+        (true, c, s)
+      else foldBack n c (s.withMem (Mem.retId a))
+    else (false, c, s)
+
+/-- `count()` (std default: `fold(0, |n, _| n + 1)`): every item is dropped inside the closure -/
+def countFront : Nat → Cur → St → Bool × Cur × St
+  | 0, c, s => (false, c, s)
+  | n + 1, c, s =>
+    if c.lo < c.hi then
+      let (a, s) := s.onMem (Mem.readMove (s.v.get c.lo))
+      let c := { c with lo := c.lo + 1 }
+      let (p, s) := s.onMem (Mem.dropId a)
+      if p then (true, c, s) else countFront n c s
+    else (false, c, s)
+
+/-- `last()` (std default: `fold(None, |_, x| Some(x))`): each new item replaces the accumulator,
+whose previous value `prev` is dropped; the last one is handed to the caller.  When that drop
+panics the new accumulator `Some(x)` — already written to the closure's return slot — is not dropped
+by the unwinding (observed, rustc 1.96; same rule as `tRoundtrip`): it leaks -/
+def lastFront : Nat → Option Nat → Cur → St → Bool × Option Nat × Cur × St
+  | 0, prev, c, s => (false, prev, c, s)
+  | n + 1, prev, c, s =>
+    if c.lo < c.hi then
+      let (a, s) := s.onMem (Mem.readMove (s.v.get c.lo))
+      let c := { c with lo := c.lo + 1 }
+      match prev with
+      | none => lastFront n (some a) c s
+      | some y =>
+        let (p, s) := s.onMem (Mem.dropId y)
+        if p then (true, none, c, s) else lastFront n (some a) c s
+    else (false, prev, c, s)
+
+/-- the iterator is consumed by value through a provided method; returns the panic flag and the
+cursor that the iterator's own `Drop` then sees -/
+def consume (fin : IFin) (c : Cur) (s : St) : Bool × Cur × St :=
+  match fin with
+  | .fold => foldFront (c.hi - c.lo) c s
+  | .rfold => foldBack (c.hi - c.lo) c s
+  | .count => countFront (c.hi - c.lo) c s
+  | .last =>
+    match lastFront (c.hi - c.lo) none c s with
+    | (true, _, c, s) => (true, c, s)
+    | (false, acc, c, s) =>
+      match acc with
+      | some a => (false, c, s.withMem (Mem.retId a))
+      | none => (false, c, s)
+  | .drop | .leak => (false, c, s)
 
 /-- `Drain::drop` (drain.rs:110): drop the unread range, then move the tail back -/
 def drainDrop (c : Cur) (tailStart tailLen : Nat) (s : St) : Bool × St :=
@@ -284,25 +404,43 @@ def drainDrop (c : Cur) (tailStart tailLen : Nat) (s : St) : Bool × St :=
     let s := s.copyWithin tailStart start tailLen
     (false, s.setLen (start + tailLen))
 
-/-- `drain(a..b)` (drain.rs:32), a script of `next`/`next_back`, then drop or `mem::forget` -/
+/-- `drain(a..b)` (drain.rs:32), a script of pulls, then the iterator is forgotten, or consumed by
+value and/or dropped (`Drain::drop`; also by the unwinding when a pull or the consumption panics) -/
 def drainOp (a b : Nat) (script : List IStep) (fin : IFin) (s : St) : Bool × St :=
   if a ≤ b ∧ b ≤ s.v.len then
     let len := s.v.len
     let s := s.setLen a
-    let (c, s) := iterSteps script { lo := a, hi := b } s
-    match fin with
-    | .leak => (false, s)
-    | .drop => drainDrop c b (len - b) s
+    let (p, c, s) := iterSteps script { lo := a, hi := b } s
+    if p then
+      let (_, s) := drainDrop c b (len - b) s
+      (true, s)
+    else
+      match fin with
+      | .leak => (false, s)
+      | fin =>
+        let (p, c, s) := consume fin c s
+        let (q, s) := drainDrop c b (len - b) s
+        (p || q, s)
   else (true, s)
 
-/-- `into_iter` (inline.rs:1288), a script, then `IntoIter::drop` (inline.rs:1336) or
-`mem::forget`; afterwards the caller continues with `InlineVec::new()` -/
+/-- `into_iter` (inline.rs:1288), a script of pulls, then the iterator is forgotten, or consumed by
+value and/or dropped (`IntoIter::drop`, inline.rs:1336, a `for` loop); afterwards the caller
+continues with `InlineVec::new()` -/
 def iIntoIter (script : List IStep) (fin : IFin) (s : St) : Bool × St :=
-  let (c, s) := iterSteps script { lo := 0, hi := s.v.len } s
+  let (p, c, s) := iterSteps script { lo := 0, hi := s.v.len } s
   let (p, s) :=
-    match fin with
-    | .leak => (false, s)
-    | .drop => s.onMem (Mem.dropLoop (s.v.range c.lo c.hi))
+    if p then
+      let (_, s) := s.onMem (Mem.dropSlice (s.v.range c.lo c.hi))
+      (true, s)
+    else
+      match fin with
+      | .leak => (false, s)
+      | fin =>
+        let (p, c, s) := consume fin c s
+        if p then
+          let (_, s) := s.onMem (Mem.dropSlice (s.v.range c.lo c.hi))
+          (true, s)
+        else s.onMem (Mem.dropLoop (s.v.range c.lo c.hi))
   (p, { s with v := iNew s.v.cap })
 
 /-- `Drop for InlineVec` (inline.rs:1206) -/
